@@ -59,8 +59,14 @@ def check(ck: Checker) -> None:
         if norm(gen.iter) == "self":
             ck.require(not gen.ifs, "C03.sorted", al, c, "every entry is listed", f"as_list filters entries: {[norm(i) for i in gen.ifs]}", construct="as_list comprehension / no filter")
     ab = prog.func("hashfile.tree", "Tree.as_bytes")
-    src = " ".join(norm(x) for x in walk_own(ab.node) if isinstance(x, ast.Return))
-    ck.require("self.as_list(with_meta=with_meta)" in src and "json.dumps(" in src and ".encode(" in src, "C03.sorted", ab, ab.node, "as_bytes serialises as_list()", "as_bytes no longer serialises self.as_list(with_meta=with_meta)", construct="as_bytes")
+    gab = ck.cfg(ab)
+    lc = [c for c in walk_own(ab.node) if isinstance(c, ast.Call) and is_method_call(c, "as_list") and norm(c.func.value) == "self"
+          and any(k.arg == "with_meta" and norm(k.value) == "with_meta" for k in c.keywords)]
+    dumps = [c for c in walk_own(ab.node) if isinstance(c, ast.Call) and call_name(c) == "dumps"]
+    okb = bool(lc) and bool(dumps)
+    for r in [n for n in gab.nodes.values() if n.kind == "stmt" and isinstance(n.ast, ast.Return)]:
+        okb = okb and flows_from_calls(gab, r, r.ast.value, lc, depth=4) and flows_from_calls(gab, r, r.ast.value, dumps, depth=4)
+    ck.require(okb, "C03.sorted", ab, ab.node, "as_bytes serialises as_list()", "as_bytes no longer serialises self.as_list(with_meta=with_meta)", construct="as_bytes")
 
     # ---------------------------------------------------------------- nometa
     dg = prog.func("hashfile.tree", "Tree.digest")
